@@ -14,7 +14,7 @@ import (
 	. "vh/vhlib"
 )
 
-var gens = map[string]GenFn{"TLSTokens": genTLSTokens, "TransferTokens": genTransferTokens, "ListenerTokens": genListenerTokens}
+var gens = map[string]GenFn{"TLSTokens": genTLSTokens, "TransferTokens": genTransferTokens, "ListenerTokens": genListenerTokens, "StageTokens": genStageTokens}
 
 // genTLSTokens reads
 //
@@ -692,5 +692,88 @@ func genListenerTokens(repo string) (string, error) {
 	}
 	fmt.Fprintf(&b, "Definition listener_flags : lflags := mkF %v %v %v.\n", inspFirst, idleStored, removeClears)
 	fmt.Fprintf(&b, "Definition ListenerTokens_translator_ok := %v.\n", ok)
+	return b.String(), nil
+}
+
+// genStageTokens reads, from pkg/stagemanager/stage_manager.go and pkg/server/reconfigure.go:
+//
+//	stop_always_drains                 runGracefulStopStage calls stm.app.Shutdown() at the top level of its body (no condition around it)
+//	stop_graceful_stage_before_close   Stop() calls runGracefulStopStage before stm.app.Close
+//	upgrade_handler_drains_before_done ReconfigureHandler calls shutdownServers() before its final `return nil`
+func genStageTokens(repo string) (string, error) {
+	var b strings.Builder
+	ok := true
+	_, sf, err := ParseGoFile(repo, "pkg/stagemanager/stage_manager.go")
+	if err != nil {
+		return "", err
+	}
+	always := false
+	if fd := FindFunc(sf, "StageManager", "runGracefulStopStage"); fd != nil {
+		for _, st := range fd.Body.List { // top level statements only
+			if is, isi := st.(*ast.IfStmt); isi && is.Init != nil {
+				if as, isa := is.Init.(*ast.AssignStmt); isa && len(as.Rhs) == 1 {
+					if c, isc := as.Rhs[0].(*ast.CallExpr); isc && exprString(c.Fun) == "stm.app.Shutdown" {
+						always = true
+					}
+				}
+			}
+			if es, ise := st.(*ast.ExprStmt); ise {
+				if c, isc := es.X.(*ast.CallExpr); isc && exprString(c.Fun) == "stm.app.Shutdown" {
+					always = true
+				}
+			}
+		}
+	} else {
+		ok = false
+	}
+	before := false
+	if fd := FindFunc(sf, "StageManager", "Stop"); fd != nil {
+		gp, cp := token.NoPos, token.NoPos
+		ast.Inspect(fd.Body, func(n ast.Node) bool {
+			if c, isc := n.(*ast.CallExpr); isc {
+				switch exprString(c.Fun) {
+				case "stm.runGracefulStopStage":
+					gp = c.Pos()
+				case "stm.app.Close":
+					cp = c.Pos()
+				}
+			}
+			return true
+		})
+		if gp == token.NoPos || cp == token.NoPos {
+			ok = false
+		} else {
+			before = gp < cp
+		}
+	} else {
+		ok = false
+	}
+	handlerDrains := false
+	if _, rf, err := ParseGoFile(repo, "pkg/server/reconfigure.go"); err == nil {
+		if fd := FindFunc(rf, "", "ReconfigureHandler"); fd != nil {
+			sp := token.NoPos
+			var lastRet token.Pos
+			ast.Inspect(fd.Body, func(n ast.Node) bool {
+				switch x := n.(type) {
+				case *ast.CallExpr:
+					if exprString(x.Fun) == "shutdownServers" {
+						sp = x.Pos()
+					}
+				case *ast.ReturnStmt:
+					if len(x.Results) == 1 && exprString(x.Results[0]) == "nil" {
+						lastRet = x.Pos()
+					}
+				}
+				return true
+			})
+			handlerDrains = sp != token.NoPos && lastRet != token.NoPos && sp < lastRet
+		} else {
+			ok = false
+		}
+	} else {
+		ok = false
+	}
+	fmt.Fprintf(&b, "Definition stop_always_drains : bool := %v.\nDefinition stop_graceful_stage_before_close : bool := %v.\nDefinition upgrade_handler_drains_before_done : bool := %v.\n", always, before, handlerDrains)
+	fmt.Fprintf(&b, "Definition StageTokens_translator_ok := %v.\n", ok)
 	return b.String(), nil
 }
